@@ -26,6 +26,7 @@ type driver struct {
 	num     int
 	pending []*pendT
 	n       int // commands submitted
+	wantUni int // unilateral data items the last action hands to the handler asynchronously
 }
 
 func (d *driver) pendingOf(kind string) *pendT {
@@ -51,6 +52,7 @@ const maxNum, maxItems, maxPending = 40, 6, 3
 // pick chooses the next legal action; ok=false if none was found this time.
 func (d *driver) pick() (ev event, ok bool) {
 	r := d.rng
+	d.wantUni = 0
 	sel := d.pendingOf("SELECT") != nil
 	ev = event{S1: "none", S2: "none"}
 	switch x := r.Intn(100); {
@@ -66,6 +68,9 @@ func (d *driver) pick() (ev event, ok bool) {
 		a := "none"
 		if k == "SELECT" || k == "STATUS" {
 			a = []string{"A", "B"}[r.Intn(2)]
+		}
+		if k == "FETCH" {
+			a = "all"
 		}
 		stateChanging := func(k string) bool { return k == "SELECT" || k == "UNSELECT" || k == "LOGOUT" || k == "LOGIN" }
 		switch k {
@@ -153,14 +158,15 @@ func (d *driver) pick() (ev event, ok bool) {
 			return ev, false
 		}
 		n := 1 + r.Intn(d.num)
-		ev.N2 = 1 // delivered to the unilateral handler (asynchronously) ...
+		ev.N2 = r.Intn(3) // UID item (0: none); irrelevant for the routing of a FETCH by sequence number
+		d.wantUni = 1     // delivered to the unilateral handler (asynchronously) ...
 		if p := d.pendingOf("FETCH"); p != nil && !p.seen[n] {
 			if p.items >= maxItems {
 				return ev, false
 			}
 			p.items++
 			p.seen[n] = true
-			ev.N2 = 0 // ... unless a pending FETCH takes it
+			d.wantUni = 0 // ... unless a pending FETCH takes it
 		}
 		ev.Act, ev.N1, ev.S1 = "Fetch", n, []string{"f0", "f1"}[r.Intn(2)]
 		return ev, true
@@ -298,12 +304,12 @@ func cmdRandom(path string, rng *rand.Rand, traces, steps int) {
 	enc := json.NewEncoder(f)
 	total := 0
 	for t := 0; t < traces; t++ {
-		w, err := newWorld()
+		w, err := newWorld("OK")
 		if err != nil {
 			out.Summary(map[string]interface{}{"infra_error": err.Error()})
 			return
 		}
-		enc.Encode(recT{Ev: "Reset", S1: "none", S2: "none"})
+		enc.Encode(recT{Ev: "Reset", S1: "OK", S2: "none"})
 		total++
 		d := &driver{rng: rng, cstate: "notauth"}
 		reported := map[int]bool{}
@@ -335,7 +341,7 @@ func cmdRandom(path string, rng *rand.Rand, traces, steps int) {
 					want = append(want, p.id)
 				}
 			case "Fetch":
-				wantUni = ev.N2
+				wantUni = d.wantUni
 			}
 			got := w.observe(want, wantUni)
 			ro := &recObs{Cstate: got.Cstate, Cmp: d.pendingOf("SELECT") == nil, Mbox: got.Mbox, Alive: got.Alive, Comp: []compT{}, Uni: []item{}}
